@@ -18,13 +18,13 @@ package main
 // (ruleLoaderCache; G-STATE, G-CACHEFIELDS, G-INVALIDATE stay in loaderrules.go).
 
 import (
-	"os"
-	"strings"
 	"fmt"
 	"go/constant"
 	"go/token"
 	"go/types"
+	"os"
 	"sort"
+	"strings"
 
 	"golang.org/x/tools/go/ssa"
 )
